@@ -513,7 +513,17 @@ def check_C03(ctx, tier, seed):
     vd = Verdict(ctx, "C03", tier, seed, "exploration")
     b = build(ctx, "default")
     n = 300_000 if tier == "quick" else 10_000_000
+    # one REAL input above 1 GiB in every run (overlapped with the batch): a single update() call vs the same bytes in pieces
+    import random
+    rnd = random.Random(seed)
+    pat = "".join("%02x" % rnd.getrandbits(8) for _ in range(rnd.randint(3, 11)))
+    side = ThreadPoolExecutor(max_workers=2)
+    jobs = [side.submit(lambda: run_sim(ctx, b, ["c03big", "--variant", seed % 5, "--pattern", pat, "--seed", seed, "--total", (1 << 30) + 12345 + seed % 1000])[1])]
+    if tier != "quick":
+        jobs.append(side.submit(lambda: run_sim(ctx, b, ["c03big", "--variant", (seed + 1) % 5, "--pattern", "a40e", "--seed", seed + 1, "--total", (1 << 31) + (1 << 29) + 77])[1]))
     sim_batch(ctx, vd, "default", b, "c03", n)
+    for j in jobs:
+        vd.add("default", j.result())
     vd.extra["components_real"] = ["Generator<T>::new/update/finalize_with_options/processed_len/clone for the five variants (public API only, no hook)"]
     vd.extra["components_stub"] = ["the delivery schedule (piece sizes, instants of finalize/clone/drop) and the byte pool"]
     vd.assumptions = ["oracle = a fresh generator after ONE update with all bytes seen (the property's own oracle); a change that alters the algorithm consistently is not a C03 violation",
@@ -873,14 +883,19 @@ def check_C11(ctx, tier, seed):
     n = 60_000 if tier == "quick" else 1_000_000
     # one REAL stream in every run, started first so that it overlaps with the batches: a single update() call with a
     # slice longer than u32::MAX (a lazily mapped zero buffer) -- the only way to reach the length conversion of one huge piece
-    side = ThreadPoolExecutor(max_workers=1)
+    side = ThreadPoolExecutor(max_workers=2)
     side_job = side.submit(lambda: run_sim(ctx, bins["hooked"], ["bigstream", "--variant", seed % 5, "--pattern", "00", "--seed", 1,
                                                                 "--single-slice", (1 << 32) + 1000 + seed % 7])[1])
+    # ... and one single slice of exactly 4,224,281,216 bytes (> 1 GiB, > 2^31, not a multiple of any power-of-two block):
+    # every byte of it must be counted, the result must be the reference hash with length code 169
+    side_job2 = side.submit(lambda: run_sim(ctx, bins["hooked"], ["bigstream", "--variant", (seed + 3) % 5, "--pattern", "00", "--seed", 1,
+                                                                 "--single-slice", 4224281216])[1])
     sim_batch(ctx, vd, "hooked", bins["hooked"], "c11", n)
     sim_batch(ctx, vd, "hooked_dbg", bins["hooked_dbg"], "c11", n // 4)
     sim_batch(ctx, vd, "hooked", bins["hooked"], "c11small", n)
     sim_batch(ctx, vd, "hooked_dbg", bins["hooked_dbg"], "c11small", n // 4)
     vd.add("hooked", side_job.result())
+    vd.add("hooked", side_job2.result())
     if tier != "quick":
         # real multi-GiB streams (works with the guard off, too; with it on, the internal state is compared with the model's jump)
         import random
